@@ -15,9 +15,13 @@ import (
 // unexported memCache field and uses newCAStore (mock clock: the ticker-driven
 // workers stay parked; the drain worker's body is called directly).
 
+// verifWTNames[n] is the SHA-256 of n zero bytes: the memory path verifies the
+// digest of what was streamed, so the blob of n zero bytes is written under
+// its true name.
 var verifWTNames = []string{
-	"1111111111111111111111111111111111111111111111111111111111111111",
-	"2222222222222222222222222222222222222222222222222222222222222222",
+	"e3b0c44298fc1c149afbf4c8996fb92427ae41e4649b934ca495991b7852b855",
+	"6e340b9cffb37a989ca544e6bb780a2c78901d3fb33738768511a30617afa01d",
+	"96a296d224f285c67bee93c30f8a309157f0daa35dc5b87e410b78630a09cfc7",
 }
 
 func verifWTStore(maxSize uint64) *CAStore {
@@ -73,8 +77,8 @@ func verifWTRun() {
 	for i := 0; i < k; i++ {
 		switch verif.Choice("op", 2) {
 		case 0:
-			name := verifWTNames[verif.Choice("name", len(verifWTNames))]
 			streamed := verif.Len("streamed_len", verif.Bound("min_streamed_len", 1, 0), 2)
+			name := verifWTNames[streamed]
 			size := uint64(streamed) // a mismatch is the subject of FINDINGS.md
 			fail := verif.Choice("stream_outcome", 2) == 1
 			inMem := cas.memCache.Get(name) != nil
@@ -106,10 +110,9 @@ func VerifFindingWriteThroughSizeMismatch() {
 	cas := verifWTStore(maxSize)
 	streamed := verif.Len("streamed_len", 1, 2)
 	size := uint64(verif.Len("reported_size", 0, 3))
-	// (when the budget refuses the reservation the blob goes to disk, where
-	// the digest check rejects these made-up names: not this harness's subject)
-	verifWTWrite(cas, verifWTNames[0], size, streamed, false)
-	verif.Cover("size-mismatch-in-memory", size != uint64(streamed) && cas.memCache.Get(verifWTNames[0]) != nil)
+	// (when the budget refuses the reservation the blob goes to disk)
+	verifWTWrite(cas, verifWTNames[streamed], size, streamed, false)
+	verif.Cover("size-mismatch-in-memory", size != uint64(streamed) && cas.memCache.Get(verifWTNames[streamed]) != nil)
 	verifWTBalance(cas, maxSize)
 	cas.drainNext()
 	verifWTBalance(cas, maxSize)
